@@ -345,6 +345,8 @@ func R18(p *core.Prog) *core.Result {
 	}
 	sort.Strings(notes)
 	_ = strings.Join
+	listSentinel(p, r)
+	internResult(p, r)
 	return r
 }
 
@@ -412,4 +414,181 @@ func knownNonNilAt(v ssa.Value, blk *ssa.BasicBlock) bool {
 		}
 	}
 	return false
+}
+
+// ---- LIST-SENTINEL / INTERN-RESULT ----
+
+// listSentinel: the recency list is circular with a sentinel that links to
+// itself when empty. Every function that overwrites a whole symbolList value
+// re-links its prev and next in the same function.
+func listSentinel(p *core.Prog, r *core.Result) {
+	n := 0
+	for _, f := range p.ModFuncs() {
+		pk := core.FuncPkg(f)
+		if pk == nil || pk.Name() != "gotype" {
+			continue
+		}
+		for _, b := range f.Blocks {
+			for _, in := range b.Instrs {
+				st, ok := in.(*ssa.Store)
+				if !ok {
+					continue
+				}
+				pt, ok := st.Addr.Type().Underlying().(*types.Pointer)
+				if !ok {
+					continue
+				}
+				nt, ok := pt.Elem().(*types.Named)
+				if !ok || nt.Obj().Name() != "symbolList" {
+					continue
+				}
+				n++
+				linked := map[string]bool{}
+				base := addrKey(st.Addr)
+				for _, b2 := range f.Blocks {
+					for _, i2 := range b2.Instrs {
+						s2, ok := i2.(*ssa.Store)
+						if !ok {
+							continue
+						}
+						fa, ok := s2.Addr.(*ssa.FieldAddr)
+						if !ok || addrKey(fa.X) == "" || addrKey(fa.X) != base {
+							continue
+						}
+						fs := fa.X.Type().Underlying().(*types.Pointer).Elem().Underlying().(*types.Struct)
+						if reaches(st, s2) {
+							linked[fs.Field(fa.Field).Name()] = true
+						}
+					}
+				}
+				fkey := core.FuncKey(f)
+				if linked["prev"] && linked["next"] {
+					r.Ok(".LIST-SENTINEL", p.Pos(st.Pos()), fkey+": the list sentinel is re-linked after the list value is overwritten")
+				} else {
+					r.Fail(".LIST-SENTINEL", fkey+"|sentinel", p.Pos(st.Pos()), fkey+" overwrites the recency list with a fresh value and does not link the sentinel's prev/next to itself: the next append dereferences nil", "")
+				}
+			}
+		}
+	}
+	r.Floor("symbol_list_resets", n, 1)
+}
+
+// internResult: what symbolCache.get hands out is the key it was asked for:
+// on every path its result is a conversion of the parameter, the value of the
+// symbol that was found, or the result of a callee for which the same holds -
+// never a constant and never a named result that was not assigned.
+type irState struct{ assigned valueSet }
+type irClient struct {
+	p    *core.Prog
+	fn   *ssa.Function
+	num  *valueNumbering
+	bad  string
+	memo map[*ssa.Function]string
+}
+
+func (k *irClient) Key(s irState) string                              { return s.assigned.key() }
+func (k *irClient) Phis(s irState, _ *ssa.BasicBlock, _ int) irState { return s }
+func (k *irClient) Branch(s irState, _ ssa.Value, _ bool) (irState, bool) {
+	return s, true
+}
+func (k *irClient) Instr(s irState, in ssa.Instruction) (irState, bool, []irState) {
+	if st, ok := in.(*ssa.Store); ok {
+		if a, ok := st.Addr.(*ssa.Alloc); ok {
+			if w := k.okValue(st.Val, 0); w == "" {
+				s.assigned = s.assigned.with(k.num.id(a))
+			} else {
+				s.assigned = s.assigned.without(k.num.id(a))
+			}
+		}
+	}
+	return s, true, nil
+}
+func (k *irClient) okValue(v ssa.Value, depth int) string {
+	if depth > 6 {
+		return "is derived too indirectly to follow"
+	}
+	switch x := v.(type) {
+	case *ssa.Parameter:
+		return ""
+	case *ssa.Const:
+		return "is the constant " + x.Value.String()
+	case *ssa.Convert:
+		return k.okValue(x.X, depth+1)
+	case *ssa.ChangeType:
+		return k.okValue(x.X, depth+1)
+	case *ssa.Phi:
+		for _, e := range x.Edges {
+			if w := k.okValue(e, depth+1); w != "" {
+				return w
+			}
+		}
+		return ""
+	case *ssa.UnOp:
+		if fa, ok := x.X.(*ssa.FieldAddr); ok {
+			if nt := namedOf(fa.X.Type()); nt != nil && nt.Obj().Name() == "symbol" {
+				return "" // sym.value
+			}
+		}
+		return "is loaded from memory that is not a symbol's value"
+	case *ssa.Call:
+		sc := x.Common().StaticCallee()
+		if sc == nil {
+			return "comes from a dynamic call"
+		}
+		if sc.Name() == "bytes2Str" || sc.Name() == "Bytes2Str" {
+			return k.okValue(x.Common().Args[0], depth+1)
+		}
+		if core.FuncPkg(sc) == core.FuncPkg(k.fn) && sc.Signature.Results().Len() == 1 {
+			if w := internResultOf(k.p, sc, k.memo); w != "" {
+				return "is the result of " + core.FuncKey(sc) + ", which " + w
+			}
+			return ""
+		}
+		return "comes from " + core.FuncKey(sc)
+	}
+	return fmt.Sprintf("is a %T", v)
+}
+func (k *irClient) Return(s irState, ret *ssa.Return) {
+	if len(ret.Results) == 0 {
+		return
+	}
+	rv := ret.Results[0]
+	if ld, ok := rv.(*ssa.UnOp); ok {
+		if a, ok := ld.X.(*ssa.Alloc); ok {
+			if !s.assigned.has(k.num.id(a)) {
+				k.bad = "returns a named result that was not assigned the key on the path to " + k.p.Pos(token.Pos(instrPos(ret)))
+			}
+			return
+		}
+	}
+	if w := k.okValue(rv, 0); w != "" {
+		k.bad = "returns at " + k.p.Pos(token.Pos(instrPos(ret))) + " a value that " + w
+	}
+}
+
+func internResultOf(p *core.Prog, f *ssa.Function, memo map[*ssa.Function]string) string {
+	if v, ok := memo[f]; ok {
+		return v
+	}
+	memo[f] = ""
+	if f.Blocks == nil {
+		return ""
+	}
+	k := &irClient{p: p, fn: f, num: newNumbering(), memo: memo}
+	WalkPaths[irState](k, f.Blocks[0], 0, irState{}, 100000, nil)
+	memo[f] = k.bad
+	return k.bad
+}
+
+func internResult(p *core.Prog, r *core.Result) {
+	get := p.LookupFunc("gotype", "(*symbolCache).get")
+	if get == nil {
+		r.Undecided(".INTERN-RESULT", "gotype.(*symbolCache).get", "key cache lookup not found")
+		return
+	}
+	if w := internResultOf(p, get, map[*ssa.Function]string{}); w != "" {
+		r.Fail(".INTERN-RESULT", "gotype.(*symbolCache).get|result", p.Pos(get.Pos()), "symbolCache.get "+w+": the unfolder stores the element under a key other than the one in the stream", "")
+	} else {
+		r.Ok(".INTERN-RESULT", p.Pos(get.Pos()), "symbolCache.get returns a copy of its argument or the value of the symbol found, on every path")
+	}
 }
